@@ -26,14 +26,14 @@ type CaseC03 struct {
 	Authors int        `json:"authors"`
 	Hist    []HistStep `json:"hist"`
 	PreSync bool       `json:"presync"`
-	Kind    string     `json:"kind"`  // nonwriter | forged-id | forged-identity | stolen-key-field | local-write
-	Route   string     `json:"route"` // sync | topic | direct | ancestor
-	Honest  int        `json:"honest"` // honest writes interleaved after the hostile delivery
-	Chain   int        `json:"chain"`  // length of the hostile chain (the head's own hostile ancestors)
-	Shared  bool       `json:"shared_opts"` // the victim opened a wildcard sibling database first, with the same options value
+	Kind    string     `json:"kind"`                  // nonwriter | forged-id | forged-identity | stolen-key-field | local-write
+	Route   string     `json:"route"`                 // sync | topic | direct | ancestor
+	Honest  int        `json:"honest"`                // honest writes interleaved after the hostile delivery
+	Chain   int        `json:"chain"`                 // length of the hostile chain (the head's own hostile ancestors)
+	Shared  bool       `json:"shared_opts"`           // the victim opened a wildcard sibling database first, with the same options value
 	Prior   bool       `json:"prior_legit,omitempty"` // with shared_opts: the attacker's entry in the wildcard sibling was accepted by the victim first
-	Restart bool       `json:"restart,omitempty"` // afterwards the replica restarts and loads its log
-	AC      string     `json:"ac,omitempty"` // "" = ipfs controller (list in the manifest) | "simple" (bundled in-memory controller, list passed by every opener)
+	Restart bool       `json:"restart,omitempty"`     // afterwards the replica restarts and loads its log
+	AC      string     `json:"ac,omitempty"`          // "" = ipfs controller (list in the manifest) | "simple" (bundled in-memory controller, list passed by every opener)
 }
 
 func genC03(rt *rapid.T) CaseC03 {
